@@ -7,6 +7,6 @@ CONSTANTS
   ApplyAfterSave = TRUE
   Self = 1
   Peers = {2, 3}
-  Solo = FALSE
+  Solo = TRUE
   HoldCommitting = TRUE
-INVARIANTS PersistBeforeSend RestartOK ApplyNotAheadOfSave
+INVARIANTS PersistBeforeSend RestartOK ApplyNotAheadOfSave CommitToldIsDurable
